@@ -150,6 +150,10 @@ F = [
     ("```\n", False), ("::::\n", False), ("$$\n", False), ("{#i}\n# H\n\n{#i}\npara\n", False), ("[^a]: x\n\n(a)=\npara\n", False), ("```{note}\n:name: a\nx\n```\n\n[^a]: y\n", False),
     ("```{note}\n:class: |\u00b2\n tip\n```\n", False), ("```{note}\n:class: >\u2460+\n tip\n```\n", False), ("---\na: [2020-01-01]\nb: {c: !!binary aGk=}\nd: !!set {x, y}\n---\n", False),
     ("x[^\u00b2] y[^1] z[^a]\n\n[^\u00b2]: two\n\n[^1]: one\n\n[^a]: named\n", False), ("```{include} adir/../self2.md\n```\n", True), ("```{include} adir/inc3.md\n```\n", True),
+    ("---\nmyst:\n  heading_slug_func: os.nope\n---\n# H\n", True), ("---\nmyst:\n  heading_slug_func: 'json.decoder.'\n  url_schemes: {ab: 0}\n---\n# H\n", True),
+    ("```{note}\n:name: | # c\n```\n", False), ("```{note}\n---\nname: > # c", False), ("[a](inv://[x) <inv://[x> [b](inv:k:std:label#%zz) [c](http://[x)\n", False),
+    ("```{line-block}\n\n   \nx\n```\n", False), ("```{line-block}\na\n  b\nc\n    d\n e\n```\n", False), ("---\n? !!binary aGVsbG8=\n: x\n2: y\n---\n", False),
+    ("# H {norole}`x` [l](#nope) ![a](b){w=1x}\n\n## H {norole}`x`\n", True), ("<img src=\"a.png\" name=\"foo\">\n<img alt=\"x\">\n\n[link](#foo)\n", False),
     ("```{include} self.md\n```\n", True), ("```{include} m1.md\n```\n", True), ("```{include} " + "n" * 300 + ".md\n```\n", True), ("```{include} a\x00b.md\n```\n", True),
 ]
 
